@@ -149,6 +149,8 @@ SV_DISP = {
 # ----------------------------------------------------------------------- setup
 
 def prepare(tier):
+    import warnings
+    warnings.filterwarnings("ignore")
     import sasmodels  # noqa: F401
     # pristine parent: import everything, build and dlopen nothing
     from sasmodels import (core, custom, data, details, direct_model, generate, kerneldll,  # noqa: F401
